@@ -74,6 +74,13 @@ func main() {
 		code := cmdSelftest(os.Args[2], os.Args[3:])
 		cleanupAll()
 		os.Exit(code)
+	case "probes":
+		b := prepare("C12", false)
+		for _, id := range []string{"O1", "O2", "O3", "O4", "O6", "O7", "O8", "O9", "O10", "O11", "O12", "O13", "O16", "O17", "O18", "O19", "O20", "O21"} {
+			pr := b.runProbe(id)
+			fmt.Printf("%-4s reproduces=%-5v %s\n", id, pr.Reproduces, pr.Detail)
+		}
+		cleanupAll()
 	case "build":
 		b := prepare("C12", true)
 		fmt.Println(b.dir)
